@@ -82,7 +82,104 @@ func c09Run(r *Run) {
 		}
 		return nil
 	}
-	isChanExpr := func(e ast.Expr) bool { return fieldOf(e) == fChan }
+	// helpers of Channel that hand out the underlying chan: every return is nil or the chan field;
+	// nilWhenClosed if a branch on the closed flag returns nil
+	chanHelper := map[*types.Func]bool{}
+	nilWhenClosed := map[*types.Func]bool{}
+	for _, fd := range funcDecls(pkg) {
+		if recvTypeName(fd) != "Channel" || fd.Type.Results == nil || len(fd.Type.Results.List) != 1 {
+			continue
+		}
+		if _, ok := info.TypeOf(fd.Type.Results.List[0].Type).Underlying().(*types.Chan); !ok {
+			continue
+		}
+		f, _ := info.Defs[fd.Name].(*types.Func)
+		all := true
+		ast.Inspect(fd.Body, func(n ast.Node) bool {
+			if rs, ok := n.(*ast.ReturnStmt); ok && len(rs.Results) == 1 {
+				if exprStr(rs.Results[0]) != "nil" && fieldOf(rs.Results[0]) != fChan {
+					all = false
+				}
+			}
+			if is, ok := n.(*ast.IfStmt); ok && fClosed != nil {
+				mentions := false
+				ast.Inspect(is.Cond, func(m ast.Node) bool {
+					if e, ok := m.(ast.Expr); ok && fieldOf(e) == fClosed {
+						mentions = true
+					}
+					return true
+				})
+				if mentions {
+					for _, st := range is.Body.List {
+						if rs, ok := st.(*ast.ReturnStmt); ok && len(rs.Results) == 1 && exprStr(rs.Results[0]) == "nil" {
+							nilWhenClosed[f] = true
+						}
+					}
+				}
+			}
+			return true
+		})
+		if all && f != nil {
+			chanHelper[f] = true
+		}
+	}
+	// local aliases of the chan, per function: ch := c.channel / ch := c.open()
+	chanAlias := map[types.Object]bool{}
+	closedNilAlias := map[types.Object]bool{} // alias that is nil when the channel is closed
+	for _, fd := range funcDecls(pkg) {
+		if recvTypeName(fd) != "Channel" {
+			continue
+		}
+		ast.Inspect(fd.Body, func(n ast.Node) bool {
+			as, ok := n.(*ast.AssignStmt)
+			if !ok || len(as.Lhs) != 1 || len(as.Rhs) != 1 {
+				return true
+			}
+			id, ok := as.Lhs[0].(*ast.Ident)
+			if !ok {
+				return true
+			}
+			o := info.Defs[id]
+			if o == nil {
+				o = info.Uses[id]
+			}
+			if o == nil {
+				return true
+			}
+			if fieldOf(as.Rhs[0]) == fChan {
+				chanAlias[o] = true
+			}
+			if c, ok := ast.Unparen(as.Rhs[0]).(*ast.CallExpr); ok {
+				if f, ok := calleeOf(info, c).(*types.Func); ok && chanHelper[f] {
+					chanAlias[o] = true
+					if nilWhenClosed[f] {
+						closedNilAlias[o] = true
+					}
+				}
+			}
+			return true
+		})
+	}
+	isChanExpr := func(e ast.Expr) bool {
+		if fieldOf(e) == fChan {
+			return true
+		}
+		if id, ok := ast.Unparen(e).(*ast.Ident); ok {
+			return chanAlias[info.Uses[id]]
+		}
+		return false
+	}
+	isClosedNilTest := func(e ast.Expr, truth bool) bool {
+		be, ok := ast.Unparen(e).(*ast.BinaryExpr)
+		if !ok || exprStr(be.Y) != "nil" {
+			return false
+		}
+		id, ok := ast.Unparen(be.X).(*ast.Ident)
+		if !ok || !closedNilAlias[info.Uses[id]] {
+			return false
+		}
+		return (be.Op == token.NEQ && truth) || (be.Op == token.EQL && !truth)
+	}
 
 	// who may touch the chan field
 	r.curRule = "C09-ONCE"
@@ -163,6 +260,9 @@ func c09Run(r *Run) {
 			s := st.(*c09State)
 			if fClosed != nil && fieldOf(e) == fClosed && !truth {
 				s.closedOK = true
+			}
+			if isClosedNilTest(e, truth) {
+				s.closedOK = true // the helper that produced the alias answers nil for a closed channel
 			}
 			// atomic: c.closed.Load()
 			if c, ok := ast.Unparen(e).(*ast.CallExpr); ok {
@@ -296,6 +396,15 @@ func c09Run(r *Run) {
 				}
 				return true
 			})
+			if !mentions {
+				// ch := c.open(); if ch == nil { return false }
+				ast.Inspect(ifs.Cond, func(m ast.Node) bool {
+					if e, ok := m.(ast.Expr); ok && isClosedNilTest(e, false) {
+						mentions = true
+					}
+					return true
+				})
+			}
 			if mentions {
 				for _, s := range ifs.Body.List {
 					if rs, ok := s.(*ast.ReturnStmt); ok && len(rs.Results) == 1 && exprStr(rs.Results[0]) == "false" {
